@@ -54,6 +54,77 @@ def req_poll(src):
     return em.blk(parse_body(body))
 
 
+def req_new(src):
+    """StunRequestState::new: what the stored bytes are, how `request_had_credentials` is computed from the builder, the default
+    schedule per transport, the initial flags"""
+    txt = src.get(AGENT)
+    imp = impl_body(txt, r"impl\s+StunRequestState\s*\{")
+    body = fn_body(imp or "", r"fn\s+new\s*\(\s*request\s*:\s*MessageBuilder<'_>\s*,\s*transport\s*:\s*TransportType\s*,\s*from\s*:\s*SocketAddr\s*,\s*to\s*:\s*SocketAddr\s*,?\s*\)\s*->\s*Self\s*\{")
+    if body is None:
+        raise XlateError("StunRequestState::new not found")
+    em = Emitter(
+        exprs=[
+            ("request.build()", "request.build"),
+            ("request.has_attribute($t)", "(request.hasAttribute $t)"),
+            ("MessageIntegrity::TYPE", "tyMI"), ("MessageIntegritySha256::TYPE", "tyMI256"),
+            ("TransportType::Tcp", "Transport.tcp"), ("TransportType::Udp", "Transport.udp"),
+            ("Self { transaction_id: request.transaction_id(), bytes: $bytes, transport, from, to, request_had_credentials: $hc, timeouts_ms, "
+             "timeout_i: $ti, last_retransmit_timeout_ms, recv_cancelled: $rc, send_cancelled: $sc, last_send_time: $ls }",
+             "(Req.mk $hc $bytes to timeouts_ms last_retransmit_timeout_ms $rc $sc $ti $ls)"),
+        ],
+        state=None, ret="{v}", locals_=["request", "transport", "to"])
+    return em.blk(parse_body(body))
+
+
+def msg_accessor(src, which):
+    """the read-only accessors of `Message` / `MessageType` / `MessageClass` the agent and the properties' observations go through"""
+    txt = src.get(MSG)
+    def body_in(impl_re, fn_re):
+        imp = impl_body(txt, impl_re)
+        b = fn_body(imp or "", fn_re)
+        if b is None:
+            raise XlateError(f"{which} not found")
+        return b
+    MT, MSGI, MC = r"impl\s+MessageType\s*\{", r"impl\s*<'a>\s*Message<'a>\s*\{", r"impl\s+MessageClass\s*\{"
+    common = [("MessageClass::Request", "0"), ("MessageClass::Indication", "1"), ("MessageClass::Success", "2"), ("MessageClass::Error", "3"),
+              ("$c.is_response()", "(classIsResponse $c)")]
+    if which == "classIsResponse":
+        body = body_in(MC, r"pub\s+fn\s+is_response\s*\(\s*self\s*\)\s*->\s*bool\s*\{")
+        em = Emitter(exprs=[("matches!(self, MessageClass::Success | MessageClass::Error)", "(decide (c = 2) || decide (c = 3))")], ret="{v}", locals_=[])
+    elif which == "mtypeClass":
+        body = body_in(MT, r"pub\s+fn\s+class\s*\(\s*self\s*\)\s*->\s*MessageClass\s*\{")
+        em = Emitter(exprs=[("self.0", "v")] + common, ret="{v}", locals_=[])
+        em.on_unreachable = "4"
+    elif which == "mtypeIsResponse":
+        body = body_in(MT, r"pub\s+fn\s+is_response\s*\(\s*self\s*\)\s*->\s*bool\s*\{")
+        em = Emitter(exprs=[("self.class()", "(mtypeClass v)")] + common, ret="{v}", locals_=[])
+    else:
+        # TryFrom<&[u8]> for MessageType must be from_bytes
+        tf = fn_body(txt, r"impl\s+TryFrom<&\[u8\]>\s+for\s+MessageType\s*\{")
+        tfb = fn_body(tf or "", r"fn\s+try_from\s*\(\s*value\s*:\s*&\[u8\]\s*\)\s*->\s*Result<Self,\s*Self::Error>\s*\{")
+        if tfb is None or re.sub(r"\s+", "", tfb) != "MessageType::from_bytes(value)":
+            raise XlateError("TryFrom<&[u8]> for MessageType shape")
+        mexprs = [("MessageType::try_from(&self.data[..2]).unwrap()", "(match msgTypeFromBytes (m.data.take 2) with | Except.ok t => t | Except.error _ => 65536)"),
+                  ("self.get_type()", "(msgGetType m)"), ("self.class()", "(msgClass m)"), ("self.method()", "(msgMethod m)"),
+                  ("$t.class()", "(mtypeClass $t)"), ("$t.method()", "(methodOf $t)"),
+                  ("BigEndian::read_u128(&self.data[4..]).into()", "(tidFromU128 (beNat ((m.data.drop 4).take 16)))"),
+                  ("self.iter_attributes().find(|attr| attr.get_type() == atype)", "(m.iter.find? (fun attr => decide (attr.ty = atype)))"),
+                  ("self.iter_attributes().any(|attr| attr.get_type() == atype)", "(m.iter.any (fun attr => decide (attr.ty = atype)))"),
+                  ] + common
+        hdr = {"msgGetType": r"pub\s+fn\s+get_type\s*\(\s*&self\s*\)\s*->\s*MessageType\s*\{",
+               "msgClass": r"pub\s+fn\s+class\s*\(\s*&self\s*\)\s*->\s*MessageClass\s*\{",
+               "msgHasClass": r"pub\s+fn\s+has_class\s*\(\s*&self\s*,\s*cls\s*:\s*MessageClass\s*\)\s*->\s*bool\s*\{",
+               "msgIsResponse": r"pub\s+fn\s+is_response\s*\(\s*&self\s*\)\s*->\s*bool\s*\{",
+               "msgMethod": r"pub\s+fn\s+method\s*\(\s*&self\s*\)\s*->\s*u16\s*\{",
+               "msgHasMethod": r"pub\s+fn\s+has_method\s*\(\s*&self\s*,\s*method\s*:\s*u16\s*\)\s*->\s*bool\s*\{",
+               "msgTransactionId": r"pub\s+fn\s+transaction_id\s*\(\s*&self\s*\)\s*->\s*TransactionId\s*\{",
+               "msgRawAttribute": r"pub\s+fn\s+raw_attribute\s*\(\s*&self\s*,\s*atype\s*:\s*AttributeType\s*\)\s*->\s*Option<RawAttribute>\s*\{",
+               "msgHasAttribute": r"pub\s+fn\s+has_attribute\s*\(\s*&self\s*,\s*atype\s*:\s*AttributeType\s*\)\s*->\s*bool\s*\{"}[which]
+        body = body_in(MSGI, hdr)
+        em = Emitter(exprs=mexprs, ret="{v}", locals_=["cls", "method", "atype"])
+    return em.blk(parse_body(body))
+
+
 AGENT_EXPRS = [
     ("msg.is_response()", "m.isResponse"),
     ("msg.transaction_id()", "m.tid"),
@@ -806,6 +877,15 @@ def tcp_fn(src, name):
 
 def items(src):
     yield ("FnAgent", "reqPoll", "(r : Req) (now : Time) : Req × ReqRet", lambda: req_poll(src), None)
+    yield ("FnGlue", "classIsResponse", "(c : Nat) : Bool", lambda: msg_accessor(src, "classIsResponse"), None)
+    yield ("FnGlue", "mtypeClass", "(v : Nat) : Nat", lambda: msg_accessor(src, "mtypeClass"), None)
+    yield ("FnGlue", "mtypeIsResponse", "(v : Nat) : Bool", lambda: msg_accessor(src, "mtypeIsResponse"), None)
+    for nm, sig in [("msgGetType", "(m : Msg) : Nat"), ("msgClass", "(m : Msg) : Nat"), ("msgHasClass", "(m : Msg) (cls : Nat) : Bool"),
+                    ("msgIsResponse", "(m : Msg) : Bool"), ("msgMethod", "(m : Msg) : Nat"), ("msgHasMethod", "(m : Msg) (method : Nat) : Bool"),
+                    ("msgTransactionId", "(m : Msg) : Nat"), ("msgRawAttribute", "(m : Msg) (atype : Nat) : Option RawAttr"),
+                    ("msgHasAttribute", "(m : Msg) (atype : Nat) : Bool")]:
+        yield ("FnGlue", nm, sig, (lambda n: (lambda: msg_accessor(src, n)))(nm), None)
+    yield ("FnGlue", "reqNew", "(request : Builder) (transport : Transport) (to : SockAddr) : Req", lambda: req_new(src), None)
     yield ("FnAgent", "validatedPeer", "(s : State) (addr : SockAddr) : State", lambda: validated_peer(src), None)
     yield ("FnAgent", "takeOutstanding", "(s : State) (transaction_id : Nat) : State × Option Req", lambda: take_outstanding(src), None)
     yield ("FnAgent", "handleStun", "(s : State) (m : InMsg) (src : SockAddr) : State × Out", lambda: handle_stun(src), None)
@@ -882,6 +962,7 @@ def items(src):
 
 
 HEADERS = {
+    "FnGlue": ["import StunVerif.Agent.Agent", "import StunVerif.Msg.Builder", "import StunVerif.Gen.MsgType", "namespace StunVerif.Gen", "open StunVerif StunVerif.Agent", ""],
     "FnAgent": ["import StunVerif.Agent.Agent", "namespace StunVerif.Gen", "open StunVerif StunVerif.Agent", ""],
     "FnAttr": ["import StunVerif.Attr.Bound", "namespace StunVerif.Gen", "open StunVerif", ""],
     "FnTyped": ["import StunVerif.Attr.Typed", "import StunVerif.Attr.Bound", "import StunVerif.Gen.FnAttr", "import StunVerif.Gen.Attr", "import StunVerif.Gen.Xor",
